@@ -48,6 +48,12 @@ class RemoveFutureImports(SimpleCodemod):
                     if name.name.value not in DEPRECATED_NAMES
                 ]
                 self.add_change(original_node, self.change_description)
+                if updated_names:
+                    # The last remaining name must not keep the comma that separated
+                    # it from a removed name
+                    updated_names[-1] = updated_names[-1].with_changes(
+                        comma=cst.MaybeSentinel.DEFAULT
+                    )
                 return (
                     updated_node.with_changes(names=updated_names)
                     if updated_names
